@@ -303,7 +303,7 @@ func directOutcome(d *directEnd) endOutcome {
 
 // judgePair applies the reference to the two observed outcomes. It returns the
 // finding key ("" = as specified) and a description.
-func judgePair(c, s hsSide, exp c18Expect, co, so endOutcome, rec *evi.Recorder) (key, what string) {
+func judgePair(c, s hsSide, exp c18Expect, co, so endOutcome, rec *evi.Recorder, responderIsHarness bool) (key, what string) {
 	if co.TimedOut || so.TimedOut {
 		return "hang:" + exp.Kind, fmt.Sprintf("client: %v; server: %v", co, so)
 	}
@@ -363,8 +363,10 @@ func judgePair(c, s hsSide, exp c18Expect, co, so endOutcome, rec *evi.Recorder)
 		if w := dataMatches(v, co.Data, s.offered(v)); w != "" {
 			return "accept:client-reports-wrong-data", "client reports " + w
 		}
-		if w := dataMatches(v, so.Data, c.offered(v)); w != "" {
-			return "accept:server-reports-wrong-data", "server reports " + w
+		if !responderIsHarness {
+			if w := dataMatches(v, so.Data, c.offered(v)); w != "" {
+				return "accept:server-reports-wrong-data", "server reports " + w
+			}
 		}
 		return "", ""
 	case "query":
@@ -519,7 +521,7 @@ func TestC18(t *testing.T) {
 		"raw proposals carry uniform query flags; handshake messages fit one segment (specification requirement)")
 
 	rec.Check(func(rt *rapid.T) {
-		driver := rapid.SampledFrom([]string{"conn", "direct", "direct", "raw"}).Draw(rt, "driver")
+		driver := rapid.SampledFrom([]string{"conn", "direct", "direct", "raw", "rawresp"}).Draw(rt, "driver")
 		planA, planB := genPlan(rt, "planC"), genPlan(rt, "planS")
 		a, b := rawpeer.Pipe(planA, planB)
 		rec.Class("driver:" + driver)
@@ -529,12 +531,20 @@ func TestC18(t *testing.T) {
 			cc, sc := genConnPair(rt)
 			c, s := sideOfConn(cc), sideOfConn(sc)
 			exp := c18Ref(c, s)
-			sch := startConn(sc.options(ouroboros.WithConnection(b)))
+			tap := newTap(b)
+			sch := startConn(sc.options(ouroboros.WithConnection(tap)))
 			cch := startConn(cc.options(ouroboros.WithConnection(a)))
-			co, cconn := connOutcome(cch)
 			so, sconn := connOutcome(sch)
 			dump := ""
-			if co.TimedOut || so.TimedOut {
+			if !so.Finished && !so.TimedOut {
+				// a Connection whose handshake failed has shut itself down; its
+				// record is final once it closed its end
+				if !tap.waitClosed() {
+					dump = goroutineDump()
+				}
+			}
+			co, cconn := connOutcome(cch)
+			if (co.TimedOut || so.TimedOut) && dump == "" {
 				dump = goroutineDump()
 			}
 			closeConn(cconn)
@@ -542,17 +552,24 @@ func TestC18(t *testing.T) {
 			_ = a.Close()
 			_ = b.Close()
 			rec.Eval()
-			c18Report(rt, rec, "conn", c, s, exp, co, so, dump)
+			c18Report(rt, rec, "conn", c, s, exp, co, so, tap.handshakeStream(true), dump)
 		case "direct":
 			c, s := genSidePair(rt)
 			exp := c18Ref(c, s)
 			// both ends must speak the same mux mode for the handshake state machine
-			sd := newDirect(b, protoMode(s.Table), true, s.libMap())
+			tap := newTap(b)
+			sd := newDirect(tap, protoMode(s.Table), true, s.libMap())
 			cd := newDirect(a, protoMode(c.Table), false, c.libMap())
-			sd.start()
-			cd.start()
-			co := directOutcome(cd)
+			sd.startOnce()
+			cd.startOnce()
 			so := directOutcome(sd)
+			if !so.Finished && !so.TimedOut {
+				// the responder's owner tears the connection down as soon as the
+				// handshake reports its error - exactly what ouroboros.Connection
+				// does (protoErrorChan -> Close)
+				sd.stop()
+			}
+			co := directOutcome(cd)
 			dump := ""
 			if co.TimedOut || so.TimedOut {
 				dump = goroutineDump()
@@ -560,19 +577,22 @@ func TestC18(t *testing.T) {
 			cd.stop()
 			sd.stop()
 			rec.Eval()
-			c18Report(rt, rec, "direct", c, s, exp, co, so, dump)
+			c18Report(rt, rec, "direct", c, s, exp, co, so, tap.handshakeStream(true), dump)
+		case "rawresp":
+			c18RawResponder(rt, rec, a, b)
 		default:
 			c18Raw(rt, rec, a, b)
 		}
 	})
 }
 
-func c18Report(rt *rapid.T, rec *evi.Recorder, driver string, c, s hsSide, exp c18Expect, co, so endOutcome, dump string) {
+func c18Report(rt *rapid.T, rec *evi.Recorder, driver string, c, s hsSide, exp c18Expect, co, so endOutcome, serverWrote []byte, dump string) {
 	rec.Class("expect:" + exp.Kind)
 	cs := map[string]any{
 		"driver": driver, "client": c.String(), "server": s.String(),
 		"expected": fmt.Sprintf("%s %s", exp.Kind, verName(exp.Version)),
 		"client_outcome": co.String(), "server_outcome": so.String(),
+		"responder_wrote_on_handshake_stream": evi.Hex(serverWrote),
 	}
 	if dump != "" {
 		cs["goroutines"] = dump
@@ -585,10 +605,35 @@ func c18Report(rt *rapid.T, rec *evi.Recorder, driver string, c, s hsSide, exp c
 			rec.Class("accept:best-is-not-both-maxima")
 		}
 	}
-	key, what := judgePair(c, s, exp, co, so, rec)
+	// The responder decided (its handshake ended with the refusal / query
+	// error), tore the connection down, and its final wire record holds no
+	// reply: the initiator cannot report what was never sent.
+	if exp.Kind != "accept" && !so.Finished && !so.TimedOut {
+		if len(serverWrote) == 0 {
+			rec.Class("reply-never-sent:" + driver)
+		} else {
+			rec.Class("reply-sent:" + driver)
+		}
+	}
+	if exp.Kind != "accept" && !so.Finished && !so.TimedOut && len(serverWrote) == 0 {
+		if rec.Fail(rt, "reply-never-sent:"+replyCallSite(exp, c, s), fmt.Sprintf("[%s] client %s ; server %s ; expected %s: the responder ended its handshake with %q and closed the connection without ever writing its reply; initiator saw: %v",
+			driver, c, s, exp.Kind, errString(so.Err), co), cs) {
+			return
+		}
+	}
+	key, what := judgePair(c, s, exp, co, so, rec, false)
 	if key != "" {
 		rec.Fail(rt, driver+":"+key, fmt.Sprintf("[%s] client %s ; server %s ; expected %s %s: %s", driver, c, s, exp.Kind, verName(exp.Version), what), cs)
 	}
+}
+
+// replyCallSite names which reply of the responder is concerned (one per
+// SendMessage call site in handleProposeVersions).
+func replyCallSite(exp c18Expect, c, s hsSide) string {
+	if exp.Kind != "query" {
+		return exp.Kind
+	}
+	return "query"
 }
 
 // c18Raw: raw proposer against a library responder (Connection server or direct Server).
@@ -610,7 +655,7 @@ func c18Raw(rt *rapid.T, rec *evi.Recorder, a, b *rawpeer.FragConn) {
 		s.InitiatorOnly, s.PeerSharing = rapid.Bool().Draw(rt, "sIO"), rapid.Bool().Draw(rt, "sPS")
 		s.Query = rapid.IntRange(0, 9).Draw(rt, "sQuery") == 9
 		sd = newDirect(b, protoMode(s.Table), true, s.libMap())
-		sd.start()
+		sd.startOnce()
 	}
 	peer := rawpeer.NewPeer(a)
 	prop, pMagic, pQuery, badV, badKind := genRawProposal(rt, s)
@@ -618,14 +663,17 @@ func c18Raw(rt *rapid.T, rec *evi.Recorder, a, b *rawpeer.FragConn) {
 	if err := peer.SendMsg(0, false, msg); err != nil {
 		rt.Fatalf("harness: send: %v", err)
 	}
-	reply, rerr := peer.NextMsg(0, true, longWait)
 	var so endOutcome
 	var sconn *ouroboros.Connection
 	if useConn {
 		so, sconn = connOutcome(sch)
 	} else {
 		so = directOutcome(sd)
+		if !so.Finished && !so.TimedOut {
+			sd.stop() // the owner tears down on the handshake error, as Connection does
+		}
 	}
+	reply, rerr := peer.NextMsg(0, true, longWait)
 	dump := ""
 	if so.TimedOut || errors.Is(rerr, rawpeer.ErrTimeout) {
 		dump = goroutineDump()
@@ -677,6 +725,9 @@ func c18Raw(rt *rapid.T, rec *evi.Recorder, a, b *rawpeer.FragConn) {
 		expKind = "refused-magic"
 	}
 	cs["expected"] = expKind
+	fail2 := func(key, what string) { // key without the driver prefix
+		rec.Fail(rt, key, fmt.Sprintf("[raw] server %s ; proposal {%s} magic=%d q=%v broken=%s:%s: %s", s, versionsString(prop.Keys), pMagic, pQuery, verName(badV), badKind, what), cs)
+	}
 	if len(prop.Notes) > 0 {
 		// the specification requires ascending keys; a responder may reject
 		// such a proposal outright. Only counted.
@@ -687,7 +738,12 @@ func c18Raw(rt *rapid.T, rec *evi.Recorder, a, b *rawpeer.FragConn) {
 		}
 	}
 	if rerr != nil {
-		fail(expKind+":no-reply", "the responder sent no handshake reply ("+rerr.Error()+") although it decided: "+so.String())
+		if expKind != "accept" && !so.Finished && !so.TimedOut && !errors.Is(rerr, rawpeer.ErrTimeout) {
+			rec.Class(fmt.Sprintf("reply-never-sent:raw-conn=%v", useConn))
+			fail2("reply-never-sent:"+expKind, "the responder ended its handshake with \""+errString(so.Err)+"\" and closed the connection without ever writing its reply ("+rerr.Error()+")")
+			return
+		}
+		fail(expKind+":no-reply", "the responder sent no handshake reply ("+rerr.Error()+"): "+so.String())
 		return
 	}
 	rn, err := xcbor.ParseExact(reply)
@@ -696,6 +752,9 @@ func c18Raw(rt *rapid.T, rec *evi.Recorder, a, b *rawpeer.FragConn) {
 		return
 	}
 	kind := rn.Items[0].Arg
+	if expKind != "accept" {
+		rec.Class(fmt.Sprintf("reply-sent:raw-conn=%v", useConn))
+	}
 	replyKind := map[uint64]string{1: "accept", 2: "refuse", 3: "queryreply"}[kind]
 	rec.Class("raw:reply:" + replyKind)
 
@@ -836,4 +895,138 @@ func encOrNil(n *xcbor.Node) []byte {
 		return nil
 	}
 	return n.Encode()
+}
+
+// c18RawResponder: a library initiator (Connection or direct Client) against a
+// harness responder that answers exactly as the reference prescribes for its
+// own generated table. This covers the initiator's half of the statement (it
+// finishes with the accepted version and the responder's data, or reports the
+// refusal it was sent / returns the table it was sent) independently of the
+// library responder.
+func c18RawResponder(rt *rapid.T, rec *evi.Recorder, a, b *rawpeer.FragConn) {
+	useConn := rapid.Bool().Draw(rt, "rrClientIsConn")
+	var c, s hsSide
+	var cch <-chan connResult
+	var cd *directEnd
+	if useConn {
+		cc, sc := genConnPair(rt)
+		c, s = sideOfConn(cc), sideOfConn(sc)
+		// the harness responder may hold any sub-table
+		if rapid.Bool().Draw(rt, "rrSub") {
+			s.Versions = genSubset(rt, s.Versions, "rrSSub")
+		}
+		cch = startConn(cc.options(ouroboros.WithConnection(a)))
+	} else {
+		c, s = genSidePair(rt)
+		cd = newDirect(a, protoMode(c.Table), false, c.libMap())
+		cd.startOnce()
+	}
+	peer := rawpeer.NewPeer(b)
+	defer peer.Close()
+	msg, err := peer.NextMsg(0, false, longWait)
+	if err != nil {
+		rec.Fail(rt, "harness:no-proposal", fmt.Sprintf("client %s: no ProposeVersions: %v", c, err), map[string]any{"client": c.String(), "goroutines": goroutineDump()})
+		return
+	}
+	prop, err := parseProposal(msg)
+	if err != nil {
+		rec.Fail(rt, "rawresp:proposal-malformed", fmt.Sprintf("client %s: %v", c, err), map[string]any{"client": c.String(), "proposal": evi.Hex(msg)})
+		return
+	}
+	// what was proposed on the wire must be what the reference says this side offers
+	if fmt.Sprint(prop.Versions) != fmt.Sprint(c.Versions) {
+		rec.Fail(rt, "rawresp:proposal-differs-from-table", fmt.Sprintf("client %s proposed {%s}", c, versionsString(prop.Versions)), map[string]any{"client": c.String(), "proposal": evi.Hex(msg)})
+		return
+	}
+	for _, v := range c.Versions {
+		vi, _ := refVersion(v)
+		if d, why := refParse(vi.Fam, prop.Data[v]); why != "" || d != c.offered(v) {
+			rec.Fail(rt, "rawresp:proposal-entry-wrong", fmt.Sprintf("client %s proposed %s => %x (%s), reference %+v", c, verName(v), encOrNil(prop.Data[v]), why, c.offered(v)),
+				map[string]any{"client": c.String(), "proposal": evi.Hex(msg)})
+			return
+		}
+	}
+	exp := c18Ref(c, s)
+	exp.QueryCorner = false // this responder always answers a query with its table
+	var reply *xcbor.Node
+	decodeErrVariant := false
+	switch exp.Kind {
+	case "accept":
+		vi, _ := refVersion(exp.Version)
+		reply = xcbor.A(xcbor.U(1), xcbor.U(exp.Version), refData(vi.Fam, s.offered(exp.Version)))
+	case "mismatch":
+		var vs []*xcbor.Node
+		for _, v := range s.Versions {
+			vs = append(vs, xcbor.U(v))
+		}
+		reply = xcbor.A(xcbor.U(2), xcbor.A(xcbor.U(0), xcbor.A(vs...)))
+	case "refused-magic":
+		if rapid.IntRange(0, 3).Draw(rt, "rrDecodeErr") == 0 {
+			decodeErrVariant = true
+			reply = xcbor.A(xcbor.U(2), xcbor.A(xcbor.U(1), xcbor.U(exp.Version), xcbor.T("cannot decode version data")))
+		} else {
+			reply = xcbor.A(xcbor.U(2), xcbor.A(xcbor.U(2), xcbor.U(exp.Version), xcbor.T("network magic mismatch")))
+		}
+	case "query":
+		var kv []*xcbor.Node
+		for _, v := range s.Versions {
+			vi, _ := refVersion(v)
+			kv = append(kv, xcbor.U(v), refData(vi.Fam, s.offered(v)))
+		}
+		reply = xcbor.A(xcbor.U(3), xcbor.M(kv...))
+	}
+	rb := reply.Encode()
+	if err := peer.SendMsg(0, true, rb); err != nil {
+		rt.Fatalf("harness: send: %v", err)
+	}
+	if exp.Kind != "accept" && rapid.Bool().Draw(rt, "rrCloseBehind") {
+		// a responder closes right behind a refusal / query reply
+		peer.Close()
+	}
+	var co endOutcome
+	var cconn *ouroboros.Connection
+	if useConn {
+		co, cconn = connOutcome(cch)
+	} else {
+		co = directOutcome(cd)
+	}
+	dump := ""
+	if co.TimedOut {
+		dump = goroutineDump()
+	}
+	closeConn(cconn)
+	if cd != nil {
+		cd.stop()
+	}
+	rec.Eval()
+	rec.Class("rawresp:expect:" + exp.Kind)
+	cs := map[string]any{"driver": "rawresp", "client_is_conn": useConn, "client": c.String(), "responder": s.String(),
+		"expected": fmt.Sprintf("%s %s", exp.Kind, verName(exp.Version)), "proposal": evi.Hex(msg), "reply": evi.Hex(rb), "client_outcome": co.String()}
+	if dump != "" {
+		cs["goroutines"] = dump
+	}
+	if exp.Kind != "accept" || fmt.Sprint(c.Versions) != fmt.Sprint(s.Versions) {
+		rec.NonTrivial(fmt.Sprintf("rawresp|%v|%s|%s", useConn, c, s), cs)
+	}
+	if decodeErrVariant {
+		var de *hs.DecodeError
+		switch {
+		case co.TimedOut:
+			rec.Fail(rt, "rawresp:hang:decode-error", fmt.Sprintf("client %s: no outcome", c), cs)
+		case co.Finished:
+			rec.Fail(rt, "rawresp:decode-error:client-finished", fmt.Sprintf("client %s finished with %s after a DecodeError refusal", c, verName(uint64(co.Version))), cs)
+		case !errors.As(co.Err, &de):
+			rec.Fail(rt, "rawresp:decode-error:refusal-not-reported", fmt.Sprintf("client %s did not report the DecodeError refusal, got: %v", c, co.Err), cs)
+		case uint64(de.Version) != exp.Version || de.Message != "cannot decode version data":
+			rec.Fail(rt, "rawresp:decode-error:wrong-report", fmt.Sprintf("client %s reported %+v", c, *de), cs)
+		}
+		return
+	}
+	so := endOutcome{Finished: exp.Kind == "accept", Version: uint16(exp.Version)}
+	if !so.Finished {
+		so.Err = errors.New("harness responder refused / replied to the query")
+	}
+	if key, what := judgePair(c, s, exp, co, so, rec, true); key != "" {
+		rec.Fail(rt, "rawresp:"+key, fmt.Sprintf("[rawresp] client %s ; harness responder %s ; sent %x ; expected %s %s: %s", c, s, rb, exp.Kind, verName(exp.Version), what), cs)
+	}
 }
